@@ -175,6 +175,44 @@ fn op_visit(src: &str) -> String {
     format!("ev={}", v.ev.join(","))
 }
 
+// ---------------------------------------------------------------- dispatcher-level hooks
+/// A visitor that overrides only the four dispatcher hooks (`visit_stmt`, `visit_expr`, `visit_pattern`,
+/// `visit_excepthandler`) — what a user writes who wants to see "every expression" — and otherwise relies on the
+/// default walk: each hook must be called exactly once per node of its category.
+struct HookVisitor {
+    n: [usize; 4],
+}
+impl Visitor<TextRange> for HookVisitor {
+    fn visit_stmt(&mut self, node: Stmt) {
+        self.n[0] += 1;
+        self.generic_visit_stmt(node)
+    }
+    fn visit_expr(&mut self, node: Expr) {
+        self.n[1] += 1;
+        self.generic_visit_expr(node)
+    }
+    fn visit_pattern(&mut self, node: Pattern) {
+        self.n[2] += 1;
+        self.generic_visit_pattern(node)
+    }
+    fn visit_excepthandler(&mut self, node: ExceptHandler) {
+        self.n[3] += 1;
+        self.generic_visit_excepthandler(node)
+    }
+}
+
+fn op_vhook(src: &str) -> String {
+    let m = match parse_mod(src) {
+        Some(Mod::Module(m)) => m,
+        _ => return "noparse".into(),
+    };
+    let mut v = HookVisitor { n: [0; 4] };
+    for s in m.body {
+        v.visit_stmt(s);
+    }
+    format!("hooks=Stmt:{},Expr:{},Pattern:{},ExceptHandler:{}", v.n[0], v.n[1], v.n[2], v.n[3])
+}
+
 // ---------------------------------------------------------------- independent walk over `{:?}`
 fn interesting(name: &str) -> bool {
     for p in ["Stmt", "Expr", "Pattern", "ExceptHandler"] {
@@ -302,6 +340,7 @@ fn handle(ws: &[&str]) -> String {
         "vkinds" => VISIT_KINDS.join(","),
         "fold" => op_fold(&src),
         "visit" => op_visit(&src),
+        "vhook" => op_vhook(&src),
         "walk" => op_walk(&src),
         "ranges" => op_ranges(&src),
         "opt" => op_opt(&src),
